@@ -12,7 +12,7 @@ from ..core import CaseResult
 
 PROP = "C13"
 LEVEL = "exploration"
-RULE = ("cells (12 quick / 60 thorough from the cell alphabet, all cosine sign patterns) x strain tensors {-0.1,0,0.1}^6 (729) (+ {-0.05,0.03}^6 "
+RULE = ("cells (12 quick / 60 thorough from the cell alphabet, all cosine sign patterns) x strain tensors {-0.1,0,0.1}^6 (729) + 21 tiny strains of magnitude 1e-7..3e-6 (+ {-0.05,0.03}^6 "
         "in thorough) x rotations from the integer-quaternion lattice x both modules, new and _old function pairs; each strain walks the "
         "conversion graph eps -> B -> eps -> (with U) UBI -> (U, eps) and every state is compared with the harness' own construction "
         "B = inv(T).B0, T upper triangular with sym(T) = eps + I. distinct_nontrivial = distinct (module, cell, eps) with eps != 0.")
@@ -31,6 +31,13 @@ def cell_list(tier):
 
 def eps_list(tier):
     e = [list(x) for x in itertools.product((0.0, 0.1, -0.1), repeat=6)]
+    # tiny strains (a tolerance that treats "almost unstrained" as unstrained lives here)
+    for mag in (3e-6, -1e-6, 1e-7):
+        for k in range(6):
+            v = [0.0] * 6
+            v[k] = mag
+            e.append(v)
+        e.append([mag, -mag, mag / 2, mag, -mag / 3, mag])
     if tier == "thorough":
         e += [list(x) for x in itertools.product((-0.05, 0.03), repeat=6)]
     return e
